@@ -4,6 +4,7 @@ import TexelVerif.Drv.Uci
 import TexelVerif.Drv.Mate
 import TexelVerif.Drv.NN
 import TexelVerif.Drv.Time
+import TexelVerif.Drv.Draw
 /-! Line-protocol driver: one operation per stdin line, one canonical reply line.
     Imports model files only (no proofs, no Mathlib), so it links as a `lean_exe`. -/
 
@@ -20,6 +21,7 @@ def dispatch (st : DrvState) (line : String) : DrvState × String :=
   | "mate" :: args => (st, Drv.Mate.step args)
   | "nn" :: args => let (t, o) := Drv.NN.step st.nn args; ({ st with nn := t }, o)
   | "tm" :: args => (st, Drv.Time.step args)
+  | "draw" :: args => (st, Drv.Draw.step args)
   | _ => (st, "bad-op")
 
 partial def loop (h : IO.FS.Stream) (out : IO.FS.Stream) (st : DrvState) : IO Unit := do
